@@ -237,7 +237,9 @@ pub fn style_from<C: Col>(d: &Value) -> PrimitiveStyle<C> {
     if i(&d["stroke"]) >= 0 {
         b = b.stroke_color(C::from_u32(i(&d["stroke"]) as u32));
     }
-    b = b.stroke_width(i(&d["w"]) as u32);
+    // optional "wreal": the real stroke width when it does not fit the 32-bit integers of the trace checker ("w" then
+    // holds an equivalent smaller width, see egv_c06)
+    b = b.stroke_width(d.get("wreal").and_then(|v| v.as_str()).map(|v| v.parse::<u32>().expect("wreal")).unwrap_or(i(&d["w"]) as u32));
     b = b.stroke_alignment(match i(&d["al"]) {
         0 => StrokeAlignment::Inside,
         1 => StrokeAlignment::Center,
